@@ -10,7 +10,16 @@ P_FOLLOW_SPEC = ["address", "article", "aside", "blockquote", "details", "div", 
 P_PARENT_EXCLUDED = ["a", "audio", "del", "ins", "map", "noscript", "video"]
 OTHER = ["datagrid", "dialog", "dir", "script", "style", "meta", "link", "template", "col", "caption", "table",
          "select", "ruby", "dl", "ul", "ol", "div", "span", "b", "x", "foo", "svg", "title",
-         "m", "h", "t", "l", "ht", "tm", "ml", "htm", "tml", "", "htmlx", "xhtml", "HTML", "P", "tbodyx", "d", "r"]
+         "m", "h", "t", "l", "ht", "tm", "ml", "htm", "tml", "", "htmlx", "xhtml", "HTML", "P", "tbodyx", "d", "r",
+         "my-card", "x-a", "font-face", "annotation-xml"]
+RESERVED_HYPHEN = ["annotation-xml", "color-profile", "font-face", "font-face-src", "font-face-uri", "font-face-format",
+                   "font-face-name", "missing-glyph"]
+
+
+def is_custom_name(n):
+    """valid custom element name (approximation over the names generated here): a-z first, contains '-', no upper
+    case, not one of the reserved hyphenated names"""
+    return bool(n) and "a" <= n[0] <= "z" and "-" in n and n == n.lower() and n not in RESERVED_HYPHEN
 NAMES = LISTED * 3 + P_FOLLOW_SPEC + P_PARENT_EXCLUDED + OTHER
 HTML = "http://www.w3.org/1999/xhtml"
 
@@ -76,7 +85,10 @@ def spec_allows(prev, t, nxt):
     if n == "p":
         if nk in ("StartTag", "EmptyTag"):
             return nn in P_FOLLOW_SPEC
-        return nk is None or (nk == "EndTag" and nn not in P_PARENT_EXCLUDED)
+        # "... and the parent element is an HTML element that is not an a, audio, del, ins, map, noscript, or video
+        # element, or an autonomous custom element" (the last clause is NOT in Spec/OptionalTags.v: decision trees
+        # over literal names cannot express it; it is decided here only)
+        return nk is None or (nk == "EndTag" and nn not in P_PARENT_EXCLUDED and not is_custom_name(nn))
     if n in ("rt", "rp"):
         return (nk == "StartTag" and nn in ("rt", "rp")) or no_more
     if n == "optgroup":
@@ -112,7 +124,7 @@ class C13(Plugin):
         for n in ["m", "h", "t", "l", "ht", "tm", "ml", "htm", "tml", "html", ""]:
             out.append({"toks": [{"type": "StartTag", "namespace": HTML, "name": n, "data": []},
                                  {"type": "Characters", "data": "x"}]})
-        for n in P_PARENT_EXCLUDED + ["div"]:
+        for n in P_PARENT_EXCLUDED + ["div", "my-card", "font-face", "canvas"]:
             out.append({"toks": [{"type": "EndTag", "namespace": HTML, "name": "p"},
                                  {"type": "EndTag", "namespace": HTML, "name": n}]})
         for n in ["meta", "link", "script", "style", "template", "p"]:
@@ -168,6 +180,9 @@ class C13(Plugin):
                 "EndTag p before StartTag dir", "EndTag p before EmptyTag datagrid",
                 "EndTag p before EmptyTag dialog", "EndTag p before EmptyTag dir"):
             return "C13-p-before-datagrid-dialog-dir"
+        if cls == "omission-not-allowed-by-syntax" and detail.startswith("EndTag p before EndTag ") and \
+                is_custom_name(detail.split(" ")[-1]):
+            return "C13-p-in-custom-element"
         if cls == "omission-not-allowed-by-syntax" and detail == "EndTag tfoot before StartTag tbody":
             return "C13-tfoot-before-tbody"
         return None
